@@ -8,7 +8,9 @@ package main
 import (
 	"bytes"
 	"encoding/json"
+	"errors"
 	"fmt"
+	"log/slog"
 	"math/rand"
 	"runtime"
 	"strings"
@@ -41,6 +43,9 @@ type Case struct {
 	Ops       []TOp  `json:"ops,omitempty"`
 	// equivalence mode: With(A).WithGroup(G).With(B).Log(C)  vs  Log(A, Group(G, B, C))
 	Equiv *EquivCase `json:"equiv,omitempty"`
+	// raw-argument mode: With(raw...).Log(m) vs Log(m, raw...) for argument lists as a caller
+	// may really write them (strings in key position, stray values, Attrs); see rawArg
+	Raw []string `json:"raw,omitempty"`
 	// concurrent mode
 	Conc *ConcCase `json:"conc,omitempty"`
 }
@@ -163,7 +168,13 @@ func runEquiv(cs Case, st *stats) (key, expected, observed string) {
 		if err1 != nil || err2 != nil {
 			return kk, "both lines are JSON objects", fmt.Sprintf("%v / %v: %q vs %q", err1, err2, o1.buf.String(), o2.buf.String())
 		}
-		a, b = logparse.Prune(a), logparse.Prune(b)
+		// Strict: an attribute given to With has to show exactly like at the call site, which
+		// includes that an empty group is dropped (slog.Record drops it before any handler sees
+		// it). The one tolerated difference belongs to WithGroup, not to With: a WithGroup(g)
+		// under which nothing at all is logged may show as "g":{} where the call site drops it.
+		if n := len(a.Obj); e.G != "" && n == len(b.Obj)+1 && a.Obj[n-1].Key == e.G && a.Obj[n-1].V.Kind == "obj" && len(logparse.Prune(a.Obj[n-1].V).Obj) == 0 {
+			a.Obj = a.Obj[:n-1]
+		}
 		if len(a.Obj) > 0 && len(b.Obj) > 0 && a.Obj[0].Key == "time" && b.Obj[0].Key == "time" {
 			b.Obj[0].V = a.Obj[0].V
 		}
@@ -353,8 +364,81 @@ func runConc(cs Case, st *stats) (key, expected, observed string) {
 	return "", "", ""
 }
 
+type rawLV struct{ v slog.Value }
+
+func (r rawLV) LogValue() slog.Value { return r.v }
+
+// rawArg decodes one token of a raw argument list.
+func rawArg(tok string) any {
+	switch tok {
+	case "i":
+		return 42
+	case "f":
+		return 3.5
+	case "b":
+		return true
+	case "n":
+		return nil
+	case "A":
+		return slog.Int("a", 1)
+	case "G":
+		return slog.Group("g", slog.Int("b", 2))
+	case "E":
+		return slog.Group("e")
+	case "N":
+		return slog.Group("o", slog.Group("e"))
+	case "I":
+		return slog.Group("", slog.Int("c", 3))
+	case "L":
+		return rawLV{slog.StringValue("lv")}
+	case "V": // a LogValuer resolving to an empty group: slog cannot drop it up front
+		return rawLV{slog.GroupValue()}
+	case "e":
+		return errors.New("err")
+	}
+	return strings.TrimPrefix(tok, "s:")
+}
+
+func runRaw(cs Case, st *stats) (key, expected, observed string) {
+	args := make([]any, len(cs.Raw))
+	for i, t := range cs.Raw {
+		args[i] = rawArg(t)
+	}
+	kk := fmt.Sprintf("rawargs:%s:%s", cs.Kind, strings.Join(cs.Raw, ","))
+	// A list whose last string would pair up with whatever follows it at the call site is not
+	// comparable (documented pairing rule: a string takes the next argument as its value).
+	for i := 0; i < len(cs.Raw); i++ {
+		if strings.HasPrefix(cs.Raw[i], "s:") {
+			if i+1 == len(cs.Raw) {
+				return "", "", ""
+			}
+			i++
+		}
+	}
+	st.equiv++
+	for _, under := range []string{"", "wg"} {
+		var o1, o2 capture
+		l1 := logger.New(logrun.NewHandler(cs.Kind, &o1, 0, cs.AddSource))
+		l2 := logger.New(logrun.NewHandler(cs.Kind, &o2, 0, cs.AddSource))
+		if under != "" {
+			// a non-empty tail keeps the group present on both sides
+			l1, l2 = l1.WithGroup(under), l2.WithGroup(under)
+		}
+		logrun.Emit(l1.With(args...), 1, "m", []any{slog.Int("z", 9)})
+		logrun.Emit(l2, 1, "m", append(append([]any(nil), args...), slog.Int("z", 9)))
+		a, err1 := logrun.StripTime(cs.Kind, o1.buf.Bytes())
+		b, err2 := logrun.StripTime(cs.Kind, o2.buf.Bytes())
+		if err1 != nil || err2 != nil || string(a) != string(b) {
+			return kk + "/" + under, fmt.Sprintf("With(args...).Log(m, z=9) writes the same line as Log(m, args..., z=9): %q", b), fmt.Sprintf("%q (%v %v)", a, err1, err2)
+		}
+	}
+	return "", "", ""
+}
+
 func runCase(cs Case, st *stats) (string, string, string) {
 	switch {
+	case cs.Raw != nil:
+		return runRaw(cs, st)
 	case cs.Equiv != nil:
 		return runEquiv(cs, st)
 	case cs.Conc != nil:
@@ -598,6 +682,39 @@ func (mn mon) Run(sh drv.Shard, c *drv.Ctx) {
 			}
 			return true
 		})
+		// raw argument lists: every list of <= 4 tokens
+		{
+			toks := []string{"s:k", "s:x", "i", "f", "n", "A", "G", "E", "N", "I", "L", "V", "e"}
+			var cur []string
+			n := 0
+			var walk func(d int) bool
+			walk = func(d int) bool {
+				if d > 0 {
+					n++
+					if n%a.Parts == a.Part {
+						for _, kind := range logrun.Kinds {
+							if !exec(Case{Kind: kind, Raw: append([]string(nil), cur...)}, "raw"+kind+strings.Join(cur, ",")) {
+								return false
+							}
+						}
+					}
+				}
+				if d == 4 {
+					return true
+				}
+				for _, t := range toks {
+					cur = append(cur, t)
+					if !walk(d + 1) {
+						return false
+					}
+					cur = cur[:len(cur)-1]
+				}
+				return true
+			}
+			if !walk(0) {
+				goto done
+			}
+		}
 		rr := rand.New(rand.NewSource(sh.Seed*3331 + int64(a.Part)))
 		for i := 0; i < 300*a.Count; i++ {
 			x, y, z := attrgen.RandRec(rr), attrgen.RandRec(rr), attrgen.RandRec(rr)
